@@ -234,6 +234,24 @@ CHECKS["C15"] = {
                     "the raw (un-shrunk) schema is only probed, not judged"],
 }
 
+CHECKS["C16"] = {
+    "specs": [("state", "restore", 1200, 50000)],
+    "budget": (150, 1800),
+    "rule": "one run = a live history as in C13 (windows of real logs, spliced/mutated; bursts of several frames in one read; eavesdropping "
+            "on in 25 %) with 1-4 crash points at seeded prefixes: S1 = get_state(include_expired on/off) with the loop drained; crash = a "
+            "fresh Gateway on the same dongle id built from S1's schema and started with cached_packets = S1's packets, optionally after a "
+            "downtime of 30 s .. 25 h (wall clock stepped); S2 = its snapshot; then S1 is restored again into the fresh gateway (S3) and "
+            "into the original one (S4). Oracle: S2/S3/S4 add nothing, change nothing and lose nothing except packets that have expired by "
+            "then; with eavesdropping off and no downtime the schemas are identical; every entry of every snapshot decodes, none is an RQ, "
+            "none a W other than 0404, none expired unless asked for. distinct = (base log, splice, config, crash points); non-trivial = "
+            "mutated history",
+    "real": REAL_STATE, "stub": STUB_RF,
+    "assumptions": ["the fresh gateway's own 7FFF signature echo is live traffic after the restart and is left out on both sides",
+                    "whether a packet 'has expired by then' is the library's own Message._expired (its thresholds are C14's subject)",
+                    "schema identity is judged with eavesdropping off only, as the statement scopes it",
+                    "a snapshot taken in the same loop turn as the last delivery (not drained) is only counted"],
+}
+
 
 def specs_for(prop: str, tier: str) -> list[tuple[str, str, int]]:
     out = []
@@ -317,11 +335,16 @@ MANIFEST_TEXT["C15"] = {
     "text": "Seeded search over the same histories: the library's validator, a reload into a fresh gateway and a graph walk are the oracles, "
             "evaluated every 16 packets.", "design_ref": "DESIGN.md 7/C15", "technique": _TECH,
     "note": "Generated schemas as configuration are covered by feeding every reached schema back; see DESIGN for the part not built."}
+MANIFEST_TEXT["C16"] = {
+    "text": "Crash/restart is simulated: at seeded prefixes of a live history only get_state()'s output survives, a fresh gateway is started "
+            "from it (optionally after downtime) and its snapshot, a second restore and a restore into the original are compared.",
+    "design_ref": "DESIGN.md 7/C16", "technique": _TECH,
+    "note": "Restart uses the Home Assistant path: Gateway(port, **schema).start(cached_packets=...)."}
 NOT_APPLICABLE = {
     "C03": "pure function of constructor arguments (decode(build(args)) = args): no schedule, clock, fault, history or second "
            "party to simulate; exhaustive/argument-space enumeration is outside this technique (DESIGN.md 8)",
     "C04": "pure scalar codec inverses over finite enumerable domains: no nondeterminism for a simulator to control "
            "(DESIGN.md 8)",
 }
-for _p in ("C14", "C16", "C20"):
+for _p in ("C14", "C20"):
     NOT_APPLICABLE.setdefault(_p, "applicable, but its engine is not built yet in this round (see DESIGN.md 12 build order)")
